@@ -573,16 +573,14 @@ func (p *Proxy) handle(ctx *Context, conn net.Conn, brw *bufio.ReadWriter) error
 	err = res.Write(brw)
 	if err != nil {
 		log.Errorf("martian: got error while writing response back to client: %v", err)
-		if _, ok := err.(*trafficshape.ErrForceClose); ok {
-			closing = errClose
-		}
+		// The response may have been written only in part, for example when the origin went
+		// away inside the body: nothing else can follow it on this connection.
+		closing = errClose
 	}
 	err = brw.Flush()
 	if err != nil {
 		log.Errorf("martian: got error while flushing response back to client: %v", err)
-		if _, ok := err.(*trafficshape.ErrForceClose); ok {
-			closing = errClose
-		}
+		closing = errClose
 	}
 	return closing
 }
